@@ -51,7 +51,21 @@ func (w *world) history(steps int, keyChanging bool) {
 			if s.pdrs[0].UE != nil {
 				ue = s.pdrs[0].UE[1]
 			}
-			p := sysh.PdrIE{ID: id, Prec: precedences[r.Intn(len(precedences))], Src: u8p(1), UE: u32p2(2, ue), Sdf: strp(sdfPool[1+r.Intn(len(sdfPool)-1)]), Far: uint32(id), Qers: []uint32{uint32(id)}}
+			// (a filter no live rule of the session uses: two rules with one match key are an ambiguous rule set, outside the envelope)
+			var free []string
+			for _, f := range sdfPool[1:] {
+				used := false
+				for _, q := range s.pdrs {
+					used = used || (q.Sdf != nil && *q.Sdf == f)
+				}
+				if !used {
+					free = append(free, f)
+				}
+			}
+			if len(free) == 0 {
+				continue
+			}
+			p := sysh.PdrIE{ID: id, Prec: precedences[r.Intn(len(precedences))], Src: u8p(1), UE: u32p2(2, ue), Sdf: strp(free[r.Intn(len(free))]), Far: uint32(id), Qers: []uint32{uint32(id)}}
 			if ue == 0 {
 				p.UE = nil
 				p.Teid = u32p3(0, w.nextTEID, n3IP)
@@ -74,7 +88,8 @@ func (w *world) history(steps int, keyChanging bool) {
 			p := s.pdrs[r.Intn(len(s.pdrs))]
 			p.Prec = precedences[r.Intn(len(precedences))]
 			if keyChanging && p.Teid != nil && p.Teid[0] == 0 && r.Intn(2) == 0 {
-				p.Teid = u32p3(0, p.Teid[1]+500, n3IP) // the rule's table key changes
+				p.Teid = u32p3(0, 0x100000+w.nextTEID, n3IP) // the rule's table key changes (to a TEID nothing else uses)
+				w.nextTEID++
 			}
 			m.up = []sysh.PdrIE{p}
 			if w.mod(s.a, s.up, m, "update").Cause == 1 {
@@ -223,7 +238,8 @@ func c03(c *ctx) {
 		}
 		w.assoc(0)
 		w.assoc(1)
-		w.history(4+c.rng.Intn(10), false)
+		// every fourth incarnation also sends Update PDRs that move a rule to another match key
+		w.history(4+c.rng.Intn(10), round%4 == 3)
 		// end of the incarnation: the agent is killed with whatever it had installed
 		w.s.Kill()
 	}
